@@ -9,7 +9,7 @@
     theorems hold for ALL their values. *)
 From Coq Require Import List ZArith Permutation.
 From V Require Import Gen.Params Lib.Hex Wire.Varint UFrames.Model UFrames.ProofsBase UFrames.Proofs UFrames.ProofsFlight
-  UFrames.ProofsCounts UFrames.ProofsValidate UFrames.ScramModel UFrames.ProofsSni UFrames.ProofsScram.
+  UFrames.ProofsCounts UFrames.ProofsLength UFrames.ProofsValidate UFrames.ScramModel UFrames.ProofsSni UFrames.ProofsScram.
 Import ListNotations.
 Open Scope Z_scope.
 
@@ -67,6 +67,18 @@ Theorem C09_random_frames_counts : forall p data base bs us,
   end.
 Proof. exact build_internal_counts. Qed.
 Print Assumptions C09_random_frames_counts.
+
+(** ... and the total length: the payload is never shorter than Length, and whenever it contains
+    PADDING it is exactly Length bytes long — for every base offset (the dry run measures with
+    the real base offset since /repo 2194cbc) and all oracle values. *)
+Theorem C09_random_frames_length : forall p data base bs us,
+  rf_wf p -> 0 <= base -> base + zlen data <= maxVarInt8 ->
+  match build_internal p data base bs us with
+  | Ok (ws, _, _) => rfLen p <= zlen (encode ws) /\ (0 < wpadbytes ws -> zlen (encode ws) = rfLen p)
+  | _ => True
+  end.
+Proof. exact build_internal_length. Qed.
+Print Assumptions C09_random_frames_length.
 
 (** QUICMultiDatagramFrames.BuildForDatagram: the same for whichever per-datagram spec is used. *)
 Theorem C09_multidatagram_exact : forall specs idx data base bs us,
